@@ -150,9 +150,10 @@ structure Skel where
   steps : Nat
   expansions : Nat
   bad : Option Bad
+  copies : Nat
   deriving DecidableEq
 
-def St.skel (st : St) : Skel := ⟨st.resolved, st.nextBn, st.steps, st.expansions, st.bad⟩
+def St.skel (st : St) : Skel := ⟨st.resolved, st.nextBn, st.steps, st.expansions, st.bad, st.copies⟩
 
 theorem skel_emit (st : St) (t : Stmt) : (st.emit t).skel = st.skel := rfl
 
@@ -207,6 +208,14 @@ theorem skel_resolved {a b : St} (h : a.skel = b.skel) : a.resolved = b.resolved
 theorem skel_steps {a b : St} (h : a.skel = b.skel) : a.steps = b.steps := congrArg Skel.steps h
 theorem skel_expansions {a b : St} (h : a.skel = b.skel) : a.expansions = b.expansions := congrArg Skel.expansions h
 theorem skel_bad {a b : St} (h : a.skel = b.skel) : a.bad = b.bad := congrArg Skel.bad h
+theorem skel_copies {a b : St} (h : a.skel = b.skel) : a.copies = b.copies := congrArg Skel.copies h
+
+theorem itemSubject_copies (E : Env) (a : ItemAttrs) (r : Option Subj) (st : St) :
+    (itemSubject E a r st).2.copies = st.copies := by
+  unfold itemSubject
+  split
+  · simp
+  · split <;> simp
 
 /-- generic invariant lemma for the two `foldl` loops of `walk` -/
 theorem foldl_inv {α : Type} (P : St → Prop) (f : St → α → St) (l : List α) (st : St) (h0 : P st)
